@@ -332,7 +332,7 @@ func (f *Frame) applyContract(v ssa.Value, con *Contract, fn *ssa.Function, args
 			f.addUses(o, con.Uses, tr)
 		}
 	}
-	if len(con.Decreases) > 0 && len(f.recMeasure) > 0 {
+	if len(con.Decreases) > 0 && len(f.recMeasure) > 0 && f.p.reaches(fn, f.topFn()) {
 		// (mutual) recursion: the callee's measure is lexicographically below the caller's entry measure
 		if len(con.Decreases) != len(f.recMeasure) {
 			panic(trErr{fmt.Sprintf("%s: recursion measures of caller and callee %s have different lengths", f.topName(), name)})
@@ -598,6 +598,33 @@ func (f *Frame) doInvoke(v ssa.Value, c *ssa.CallCommon, pos token.Pos) {
 			o := f.oblige("pre", fmt.Sprintf("%s.%s", key, clauseName(r, k)), pos, tr.boolExpr(r.Expr))
 			if o != nil {
 				o.Props = r.Props
+			}
+		}
+		if len(con.Decreases) > 0 && len(f.recMeasure) > 0 && f.topFn().Name() == c.Method.Name() {
+			// a dynamic call that may re-enter the caller (an implementation of the same interface method calling the
+			// method on a part of its input): the callee's measure is lexicographically below the caller's entry measure
+			if len(con.Decreases) != len(f.recMeasure) {
+				panic(trErr{fmt.Sprintf("%s: recursion measures of caller and interface method %s have different lengths", f.topName(), key)})
+			}
+			var now []T
+			for _, d := range con.Decreases {
+				tr := &Translator{f: f, env: env, cur: pre, old: pre}
+				now = append(now, tr.expr(d.Expr).t)
+			}
+			var disj []T
+			for i := range now {
+				var conj []T
+				for j := 0; j < i; j++ {
+					conj = append(conj, Eq(now[j], f.recMeasure[j]))
+				}
+				conj = append(conj, Lt(now[i], f.recMeasure[i]), Le(Zero, f.recMeasure[i]))
+				disj = append(disj, And(conj...))
+			}
+			if o := f.oblige("term", "rec("+key+")", pos, Or(disj...)); o != nil {
+				o.Props = con.Decreases[0].Props
+				if f.con != nil {
+					f.addUses(o, f.con.Uses, f.translator(f.cur, nil, f.st, nil))
+				}
 			}
 		}
 		ms := ModSet{}
@@ -951,4 +978,70 @@ func (f *Frame) readSortSafe(name string) (s Sort) {
 		return ""
 	}
 	return f.readSort(name)
+}
+
+
+// topFn: the function under verification (the outermost frame of an inlining chain).
+func (f *Frame) topFn() *ssa.Function {
+	if fn := f.p.funcs[f.topName()]; fn != nil {
+		return fn
+	}
+	return f.fn
+}
+
+// reaches: can a call of `from` lead (through static calls, closures it creates, or dynamic calls to any in-package
+// implementation of the invoked method) to a call of `to`? Used to ask for a recursion measure only where recursion is possible.
+func (p *Program) reaches(from, to *ssa.Function) bool {
+	if p.reachCache == nil {
+		p.reachCache = map[*ssa.Function]map[*ssa.Function]bool{}
+	}
+	set, ok := p.reachCache[from]
+	if !ok {
+		set = map[*ssa.Function]bool{}
+		var visit func(fn *ssa.Function)
+		visit = func(fn *ssa.Function) {
+			if fn == nil || set[fn] {
+				return
+			}
+			set[fn] = true
+			for _, b := range fn.Blocks {
+				for _, in := range b.Instrs {
+					if mc, ok := in.(*ssa.MakeClosure); ok {
+						if cf, ok := mc.Fn.(*ssa.Function); ok {
+							visit(cf)
+						}
+					}
+					ci, ok := in.(ssa.CallInstruction)
+					if !ok {
+						continue
+					}
+					cc := ci.Common()
+					if cc.IsInvoke() {
+						for _, impl := range p.methodsNamed(cc.Method.Name()) {
+							visit(impl)
+						}
+						continue
+					}
+					if sf := cc.StaticCallee(); sf != nil {
+						visit(sf)
+					}
+				}
+			}
+		}
+		visit(from)
+		p.reachCache[from] = set
+	}
+	return set[to]
+}
+
+// methodsNamed: every function of the package that is a method with this name (an over-approximation of the
+// implementations a dynamic call can reach).
+func (p *Program) methodsNamed(method string) []*ssa.Function {
+	var out []*ssa.Function
+	for _, fn := range p.funcs {
+		if fn.Signature.Recv() != nil && fn.Name() == method {
+			out = append(out, fn)
+		}
+	}
+	return out
 }
